@@ -846,6 +846,17 @@ func (mvcc *MVCCLevelDB) Prewrite(req *kvrpcpb.PrewriteRequest) []error {
 		// A retried prewrite finds the transaction's own lock: it is answered like the first attempt,
 		// without repeating the existence check (which would report the own lock or the own write).
 		if (op == kvrpcpb.Op_Insert || op == kvrpcpb.Op_CheckNotExists) && forUpdateTS == 0 && !mvcc.hasLockOf(m.Key, startTS) {
+			// Like TiKV, a lock of another transaction or a version committed after startTS is reported before
+			// the existence of the key is looked at (the key may have been deleted by that newer version).
+			pa := kvrpcpb.PrewriteRequest_SKIP_PESSIMISTIC_CHECK
+			if len(req.PessimisticActions) > 0 {
+				pa = req.PessimisticActions[i]
+			}
+			if err := prewriteMutation(mvcc.getDB(""), &leveldb.Batch{}, m, startTS, primary, ttl, txnSize, pa, minCommitTS, req.AssertionLevel); err != nil {
+				errs = append(errs, err)
+				anyError = true
+				continue
+			}
 			v, err := mvcc.getValue(m.Key, startTS, kvrpcpb.IsolationLevel_SI, req.Context.ResolvedLocks)
 			if err != nil {
 				errs = append(errs, err)
